@@ -43,8 +43,18 @@ def sharing_doc(rng):
         gid = rng.choice(g.grad_ids)
         # a gradient whose only user is text (kept with allow_text) or sits inside an unsupported element (dropped with
         # drop_unsupported)
-        src = src.replace("</svg>", rng.choice(['<text x="5" y="20" fill="url(#%s)">Hi</text></svg>',
+        src = src.replace("</svg>", rng.choice(['<text x="5" y="20" fill="url(#%s)">Hi</text></svg>', '<text x="5" y="20" stroke="url(#%s)">Hi</text></svg>',
                                                   '<foo><rect width="9" height="9" fill="url(#%s)"/></foo></svg>']) % gid)
+    elif k < 0.8 and g.grad_ids:
+        # the other ways CSS writes a paint reference, and ids with characters outside [A-Za-z0-9_-]
+        gid = rng.choice(g.grad_ids)
+        form = rng.choice([" url(#%s)", "url(#%s) ", "url('#%s')", 'url( #%s )', "url(#%s) red", "url(#%s) none", "DOT"])
+        if form == "DOT":
+            new = gid + rng.choice([".1", ".a", ":b"])
+            src = src.replace('"%s"' % gid, '"%s"' % new).replace("#%s)" % gid, "#%s)" % new).replace('"#%s"' % gid, '"#%s"' % new)
+        else:
+            val = (form % gid).replace('"', "&quot;")
+            src = src.replace("</svg>", '<rect x="3" y="4" width="12" height="9" fill="%s"/></svg>' % val)
     return src
 
 
@@ -74,12 +84,12 @@ def refs_check(text):
         if not isinstance(el.tag, str):
             continue
         for k, v in el.attrib.items():
-            m = re.match(r"^url\(#([^)]+)\)$", v.strip())
+            m = re.match(r"""^url\(\s*['"]?#([^)'"\s]+)['"]?\s*\)(\s+\S.*)?$""", v.strip())
             if m:
                 t = ids.get(m.group(1))
                 if t is None:
                     return "dangling reference %s=%r" % (k, v)
-                if k == "fill":
+                if k in ("fill", "stroke"):
                     if not t.tag.endswith("Gradient") or t.getparent() is None or not t.getparent().tag.endswith("defs"):
                         return "fill %r does not point at a gradient inside defs" % v
                     used.add(m.group(1))
